@@ -164,12 +164,15 @@ def collect_reads_in_parallel(sample, chr_id, args):
 
 
 class ReadAssignmentLoader:
-    def __init__(self, save_file_name, gffutils_db, chr_record, multimapped_chr_dict):
+    def __init__(self, save_file_name, gffutils_db, chr_record, multimapped_chr_dict, reference_flank=0):
         logger.info("Loading read assignments from " + save_file_name)
         assert os.path.exists(save_file_name)
         self.save_file_name = save_file_name
         self.unpickler = NormalTmpFileAssignmentLoader(save_file_name, gffutils_db, chr_record)
         self.multimapped_chr_dict = multimapped_chr_dict
+        # reference bases loaded on either side of the reads of a region: the SQANTI-like table reads
+        # upstream_region_len bases beyond the 3' end of a transcript model
+        self.reference_flank = reference_flank
 
     def has_next(self):
         return self.unpickler.has_next()
@@ -217,6 +220,8 @@ class ReadAssignmentLoader:
                 if exons:
                     region_start = min(region_start, exons[0][0])
                     region_end = max(region_end, exons[-1][1])
+        region_start -= self.reference_flank
+        region_end += self.reference_flank
         if region_start < gene_info.all_read_region_start or region_end > gene_info.all_read_region_end:
             gene_info.set_reference_sequence(region_start, region_end, self.unpickler.chr_record)
 
@@ -298,7 +303,8 @@ def construct_models_in_parallel(sample, chr_id, dump_filename, args, read_group
         if args.sqanti_output else VoidTranscriptPrinter()
     novel_model_storage = []
 
-    loader = ReadAssignmentLoader(chr_dump_file, gffutils_db, current_chr_record, multimapped_reads)
+    loader = ReadAssignmentLoader(chr_dump_file, gffutils_db, current_chr_record, multimapped_reads,
+                                  reference_flank=args.upstream_region_len if args.sqanti_output else 0)
     while loader.has_next():
         gene_info, assignment_storage = loader.get_next()
         logger.debug("Processing %d reads" % len(assignment_storage))
